@@ -164,7 +164,7 @@ fn finish(ctx: &mut Ctx) -> Result<i32, MachineryError> {
         ctx.evaluations,
         ctx.states.len(),
         ctx.transitions,
-        ctx.distinct_nontrivial.len(),
+        ctx.distinct_nontrivial,
         ctx.outcomes.len(),
         ctx.violation_count,
         ctx.known_hits.values().sum::<u64>(),
@@ -180,7 +180,8 @@ fn write_evidence(ctx: &Ctx) -> Result<(), MachineryError> {
     cov.insert("transitions".into(), json!(ctx.transitions.max(1)));
     cov.insert("traces_validated_against_impl".into(), json!(ctx.evaluations));
     cov.insert("evaluations".into(), json!(ctx.evaluations));
-    cov.insert("distinct_nontrivial".into(), json!(ctx.distinct_nontrivial.len()));
+    cov.insert("distinct_nontrivial".into(), json!(ctx.distinct_nontrivial));
+    cov.insert("distinct_reference_outcome_shapes".into(), json!(ctx.ref_shapes.len()));
     cov.insert("distinct_outcomes".into(), json!(ctx.outcomes.len()));
     cov.insert("rule".into(), json!(ctx.rule));
     cov.insert("samples".into(), json!(ctx.samples));
